@@ -22,7 +22,12 @@ type MsgSpec struct {
 	// Unknown: the (real protobuf) message also carries fields its type does
 	// not know — what a reader built from an older schema sees. They are part
 	// of the message: they must survive the round trip.
-	Unknown bool   `json:"unknown,omitempty"`
+	Unknown bool `json:"unknown,omitempty"`
+	// Pattern: payload content. "" = attributable pseudo-random bytes; "zero",
+	// "ff", "80" = that byte repeated; "alt" = 0xaa 0x55 …; "hdr" = the payload
+	// starts with bytes that look exactly like a frame header (version, header
+	// size 32, a small body size) — content must never be interpreted.
+	Pattern string `json:"pattern,omitempty"`
 	VerHex  string `json:"ver_hex,omitempty"` // version bytes, hex (may contain NUL, 0x80, 0xff)
 }
 
@@ -80,6 +85,26 @@ func (m MsgSpec) unknownBytes() []byte {
 func (m MsgSpec) payload() []byte {
 	p := make([]byte, m.Len)
 	engine.Fill(p, m.Seed, 0)
+	switch m.Pattern {
+	case "zero":
+		for i := range p {
+			p[i] = 0
+		}
+	case "ff":
+		for i := range p {
+			p[i] = 0xff
+		}
+	case "80":
+		for i := range p {
+			p[i] = 0x80
+		}
+	case "alt":
+		for i := range p {
+			p[i] = 0xaa >> uint(i&1)
+		}
+	case "hdr":
+		copy(p, craftHeader("1.0.0", 32, uint64(m.Seed%7)))
+	}
 	if m.Kind == "string" {
 		for i := range p {
 			p[i] = 'a' + p[i]%26
@@ -203,6 +228,9 @@ func genMsg(r *engine.PRNG, maxLen int) MsgSpec {
 		m.Len = int(r.Range(0, int64(maxLen)))
 	}
 	m.Unknown = r.Chance(1, 6)
+	if r.Chance(1, 4) {
+		m.Pattern = r.PickStr("zero", "ff", "80", "alt", "hdr", "hdr")
+	}
 	if r.Chance(1, 2) {
 		m.Versioned = true
 		n := r.PickInt(0, 1, 5, 5, 15, 16, 16, int(r.Range(0, 16)))
